@@ -231,7 +231,9 @@ tx_outs:\n{tx_outs}
         return cls(version, inputs, outputs, locktime, network=network, segwit=True)
 
     def serialize(self):
-        if self.segwit:
+        # a transaction is serialized with its witnesses as soon as an input has one,
+        # also when it was built without the segwit flag and signed afterwards
+        if self.segwit or any(len(tx_in.witness.items) > 0 for tx_in in self.tx_ins):
             return self.serialize_segwit()
         else:
             return self.serialize_legacy()
